@@ -122,9 +122,11 @@ Account(st, d, k) ==
 
 -----------------------------------------------------------------------------
 (* Silent step: hibernating demes are skipped when their turn comes        *)
-RECURSIVE Norm(_)
-Norm(st) == IF st.pc = "meta" /\ st.cur = NoDeme /\ st.queue # <<>> /\ Asleep(st, Head(st.queue))
-            THEN Norm([st EXCEPT !.queue = Tail(@)])
+\* (flags do not change during a metaepoch, so all sleeping demes can be dropped from the queue at once; the order in
+\* which the awake demes of a metaepoch get their turn is not fixed by any property: the design model serves them in the
+\* code's order, the trace specification accepts any order)
+Norm(st) == IF st.pc = "meta" /\ st.cur = NoDeme
+            THEN [st EXCEPT !.queue = SelectSeq(@, LAMBDA d : ~Asleep(st, d))]
             ELSE st
 
 (* ---- initial population of a freshly constructed deme ----------------- *)
@@ -142,7 +144,9 @@ DoLoopCheck(st, v) ==
 
 (* ---- the next awake deme starts its metaepoch -------------------------- *)
 EnBegin(st, d) == st.pc = "meta" /\ st.cur = NoDeme /\ st.queue # <<>> /\ Head(st.queue) = d
-DoBegin(st, d) == [st EXCEPT !.cur = d, !.queue = Tail(@), !.gen = 0, !.await = "-"]
+DoBegin(st, d) == [st EXCEPT !.cur = d, !.queue = SelectSeq(@, LAMBDA x : x # d), !.gen = 0, !.await = "-"]
+\* trace validation: d gets its turn wherever it stands in the queue
+EnBeginAny(st, d) == st.pc = "meta" /\ st.cur = NoDeme /\ \E i \in DOMAIN st.queue : st.queue[i] = d
 
 Wound(st, d) == IF st.gscSeen THEN [st.wind EXCEPT ![d] = @ + 1] ELSE st.wind
 
@@ -181,7 +185,7 @@ DoLsc(st, d, v, selfStop) ==
 (* ---- local deme: one complete search, no consult ----------------------- *)
 EnLocalRun(st, d) == EnBegin(st, d) /\ Eng(st, d) = "LOCAL"
 DoLocalRun(st, d, k) ==
-    Norm([Account(st, d, k) EXCEPT !.queue = Tail(@), !.D[d].me = @ + 1, !.D[d].gens = Append(@, 1),
+    Norm([Account(st, d, k) EXCEPT !.queue = SelectSeq(@, LAMBDA x : x # d), !.D[d].me = @ + 1, !.D[d].gens = Append(@, 1),
                     !.D[d].active = FALSE, !.D[d].why = "self", !.wind = Wound(st, d), !.stepCalls = @ + k])
 
 (* ---- run_step(): consult after the metaepoch ---------------------------- *)
